@@ -186,24 +186,36 @@ def replay_counterexample(prop, h, ovdir, target_dir, tier_cfg, scratch, res):
     base = pcfg.get("override_timeout") or h.timeout or pcfg["harness_timeout"]
     pcfg["override_timeout"] = max(1800, 4 * base)
     pcfg["total"] = max(pcfg.get("total", 0), pcfg["override_timeout"] + 600)
-    # Kani's concrete playback asks CBMC for one trace per failed check AND per satisfied cover;
-    # the covers are only vacuity witnesses, so the playback run uses a copy of the overlay with
-    # the `kani::cover!` lines removed (measured: 9 traces of a 140k-step harness did not finish
-    # in 45 min and crashed kani-driver; the failing assertion alone takes minutes)
-    povdir = os.path.join(scratch, "ov-playback")
-    if os.path.exists(povdir):
-        shutil.rmtree(povdir)
-    shutil.copytree(ovdir, povdir)
-    for d, _, fs in os.walk(os.path.join(povdir, "src")):
-        for fn in fs:
-            if fn.endswith(".rs"):
-                fp = os.path.join(d, fn)
-                txt = open(fp).read()
-                new = re.sub(r"^[ \t]*kani::cover!\(.*\);[ \t]*$", "", txt, flags=re.M)
-                if new != txt:
-                    open(fp, "w").write(new)
-    ptarget = ov_mod.seed_kani_target(scratch, "kani-target-playback")
-    rc, wall, cmd = run_kani(povdir, ptarget, [h], pcfg, None, logfile, playback=True)
+    # Kani's concrete playback asks CBMC for one trace per failed check AND per satisfied cover
+    # (measured: > 45 min and a kani-driver crash for a 140k-step harness).  The failed check is
+    # therefore mapped to its CBMC property name (cbmc --show-properties on the goto binary of
+    # the verification run) and the playback run is restricted to that ONE property.
+    cand, gdir = cbmc_property_of(scratch, h, res)
+    done = False
+    for prop_name in cand[:4]:
+        pcfg["playback_property"] = prop_name
+        log("playback of %s restricted to CBMC property %s" % (h.name, prop_name))
+        rc, wall, cmd = run_kani(ovdir, gdir, [h], pcfg, None, logfile, playback=True)
+        if [t for t in ov_mod_parse(open(logfile, errors="replace").read()) if t[0] != "cover"]:
+            done = True
+            break
+    pcfg.pop("playback_property", None)
+    if not done:
+        # fallback: full playback on a copy of the overlay without the cover statements
+        povdir = os.path.join(scratch, "ov-playback")
+        if os.path.exists(povdir):
+            shutil.rmtree(povdir)
+        shutil.copytree(ovdir, povdir)
+        for d, _, fs in os.walk(os.path.join(povdir, "src")):
+            for fn in fs:
+                if fn.endswith(".rs"):
+                    fp = os.path.join(d, fn)
+                    txt = open(fp).read()
+                    new = re.sub(r"^[ \t]*kani::cover!\(.*\);[ \t]*$", "", txt, flags=re.M)
+                    if new != txt:
+                        open(fp, "w").write(new)
+        ptarget = ov_mod.seed_kani_target(scratch, "kani-target-playback")
+        rc, wall, cmd = run_kani(povdir, ptarget, [h], pcfg, None, logfile, playback=True)
     text = open(logfile, errors="replace").read()
     tests = [t for t in ov_mod_parse(text) if t[0] != "cover"]
     os.makedirs(os.path.join(VERIF, "replays"), exist_ok=True)
@@ -231,6 +243,43 @@ def replay_counterexample(prop, h, ovdir, target_dir, tier_cfg, scratch, res):
     json.dump(rep, open(path, "w"), indent=1)
     rep["path"] = path
     return rep
+
+
+def cbmc_property_of(scratch, h, res):
+    """(CBMC property name of the first failed check of harness h, target dir holding its goto binary)."""
+    import glob
+    import subprocess
+    cands = glob.glob(os.path.join(scratch, "kani-target-*", "kani", "*", "debug", "build", "masscanned", "*", "out", "*%s.out" % h.name))
+    cands = [c for c in cands if not c.endswith(".symtab.out")]
+    if not cands:
+        return [], None
+    gfile = max(cands, key=os.path.getmtime)
+    gdir = gfile[:gfile.index("/kani/")]
+    try:
+        out = subprocess.run(["cbmc", "--show-properties", "--json-ui", gfile], stdout=subprocess.PIPE, stderr=subprocess.DEVNULL,
+                             universal_newlines=True, timeout=300).stdout
+        props = [x for x in json.loads(out) if isinstance(x, dict) and "properties" in x][0]["properties"]
+    except Exception:
+        return [], None
+    exact, loose = [], []
+    for f in res.get("failed", []):
+        desc = f["description"]
+        line = f.get("at", "").rsplit(":", 1)[-1]
+        for p in props:
+            if ".cover." in p["name"]:
+                continue
+            pd = p.get("description", "")
+            if desc and desc in pd:
+                pl = str(p.get("sourceLocation", {}).get("line", ""))
+                if pl == line:
+                    exact.append(p["name"])
+                else:
+                    loose.append(p["name"])
+    out = []
+    for n in exact + loose:
+        if n not in out:
+            out.append(n)
+    return out, gdir
 
 
 def ov_mod_parse(text):
